@@ -5,6 +5,7 @@ rows = []
 for f in sorted(glob.glob('/verif/seeded/*/meta.json'), key=lambda x: (x.split('/')[-2].split('-')[0], int(x.split('/')[-2].split('-')[1]))):
     m = json.load(open(f)); sid = f.split('/')[-2]
     summ = (m.get('summary') or '').replace('|', '/').replace('\n', ' ')
+    summ = ''.join(c if ord(c) >= 32 else '\\x%02x' % ord(c) for c in summ)
     if len(summ) > 210: summ = summ[:207] + '…'
     cr = m.get('checks_run')
     if cr:
